@@ -414,6 +414,19 @@ if mode.startswith("crash"):
             k[0] -= 1
         return _rm(p, *a, **kw)
     os.remove = rm
+if mode.startswith("kill"):
+    # the interpreter is killed outright (SIGKILL: OOM killer, batch time limit, power cut) in the middle of the clean-up: no exception
+    # handler, no `finally`, no atexit runs
+    import signal
+    kk = [int(mode[4:])]
+    _rm2 = os.remove
+    def rm2(p, *a, **kw):
+        if str(p).endswith((".nbi", ".nbc")):
+            if kk[0] == 0:
+                os.kill(os.getpid(), signal.SIGKILL)
+            kk[0] -= 1
+        return _rm2(p, *a, **kw)
+    os.remove = rm2
 import numpy as np
 try:
     import pybes3 as p3
@@ -520,6 +533,10 @@ def e2e(src, level):
                 script, mode = "bootmp.py", mode[3:]
             p = subprocess.run([sys.executable, str(root / script), str(base or (root / "pkg")), "x" if script == "bootmp.py" else mode] + ([mode] if script == "bootmp.py" else []), env=env, cwd=str(root),
                                capture_output=True, text=True, timeout=600)
+            if mode.startswith("kill") and p.returncode == -9:
+                out = {"mode": mode, "killed": True}
+                res["runs"].append(out)
+                return out
             if p.returncode != 0:
                 raise RuntimeError(f"interpreter run '{mode}' failed: {p.stderr[-1500:]}")
             out = json.loads(p.stdout.strip().splitlines()[-1])
@@ -534,8 +551,8 @@ def e2e(src, level):
                 return {}
             return {p.name: (p.stat().st_mtime_ns, p.stat().st_size) for p in pyc.iterdir() if p.suffix in (".nbi", ".nbc")}
 
-        def bump(table, key):
-            p = geom / table
+        def bump(table, key, gdir=None):
+            p = (gdir or geom) / table
             d = dict(np.load(p))
             a = d[key].copy()
             a.flat[0] = a.flat[0] + 1.0
@@ -609,6 +626,33 @@ def e2e(src, level):
         left = sorted(q.name for q in fpyc.iterdir() if q.suffix in (".nbi", ".nbc")) if fpyc.is_dir() else []
         expect(left == [], "e2e:forced-clear-leaves-files:link-farm-install", f"left after clear_numba_cache(): {left}")
         c = run("use")
+        # P: the package copied into an ordinary installation layout (<prefix>/lib/pythonX.Y/site-packages/pybes3): the check is about the tables
+        #    beside the code, wherever that is
+        sp = root / "prefix" / "lib" / "python3.12" / "site-packages"
+        shutil.copytree(pkg, sp / "pybes3", ignore=shutil.ignore_patterns("__pycache__", "*.nbi", "*.nbc", "*.pyc"))
+        p1 = run("use", base=sp)
+        expect(p1["file"].startswith(str(sp)), "e2e:site-packages-copy-not-imported", p1.get("file", ""))
+        newp = bump("mdc_geom.npz", "east_x", gdir=sp / "pybes3" / "detectors" / "geometry")
+        p2 = run("use", base=sp)
+        expect(p2["mdc"][0] == newp, "e2e:stale-value-after-table-update:site-packages-layout",
+               f"package installed under {sp.relative_to(root)}: after mdc_geom.npz changed (east_x[0] -> {newp}) a fresh interpreter returns "
+               f"mdc_gid_to_east_x(0) = {p2['mdc'][0]} (before the update: {p1['mdc'][0]})")
+        # K: the interpreter doing the clean-up is KILLED (no handler runs) after one removal; the next import finishes the job, a forced clear too
+        newk = bump("emc_geom.npz", "center_x")
+        n_before = len(caches())
+        kres = run("kill1")
+        expect(kres.get("killed") is True, "e2e:kill-not-delivered", f"the import with a SIGKILL inside the second os.remove ended normally: {kres}")
+        k2 = run("use")
+        expect(k2["emc"][0] == newk, "e2e:stale-value-after-killed-cleanup",
+               f"emc_geom.npz changed (center_x[0] -> {newk}); the interpreter that cleaned up was killed (SIGKILL) after 1 of {n_before} removals; the next import "
+               f"leaves emc_gid_to_center_x(0) = {k2['emc'][0]}")
+        newk2 = bump("emc_geom.npz", "center_x")
+        run("kill0")
+        run("clear")
+        left_k = sorted(caches())
+        expect(left_k == [], "e2e:forced-clear-leaves-files:after-killed-cleanup", f"left after clear_numba_cache() following a killed clean-up: {left_k}")
+        k3 = run("use")
+        expect(k3["emc"][0] == newk2, "e2e:stale-value-after-killed-cleanup-and-clear", f"emc_gid_to_center_x(0) = {k3['emc'][0]}, table {newk2}")
         # M: the first import after a table update is made by a multiprocessing worker (driver imports nothing; task imports lazily)
         for how in (["spawn"] if level != "full" else ["spawn", "forkserver", "fork", "executor"]):
             newm = bump("mdc_geom.npz", "east_x")
